@@ -186,8 +186,25 @@ def big_queries(kind='db', config='base', tier='quick'):
             for h, what in (('deep_split_get', 'key-prefix splits below the root at three positions and a collapse'), ('big_i48', 'I4->I16->I48'), ('big_i256', '->I256'), ('big_shr16', 'I48->I16'), ('big_shr48', 'I256->I48'), ('big_shr4', 'I48->I16->I4'))]
 
 
+def kv_queries(pid='C01'):
+    import fw
+    known, _ = fw.load_known()
+    qs = []
+    for L, share in ((4, None), (8, None), (11, 7)):
+        u = U('kv.cpp', defines=['LEN=%d' % L] + (['SHARE_MAX=%d' % share] if share is not None else []), max_node_type=1)
+        qs.append(Query('kv2-len%d' % L, u, 'h_kv2', unwind=L + 5, flags=['--slice-formula'], loop_bounds=[('::(get|insert|remove)_internal', 3)],
+                        about='db<key_view>: from empty, two fully symbolic byte-string keys of length %d%s, lookups of both and of a third symbolic key' % (L, '' if share is None else ' sharing at most %d leading bytes' % share),
+                        bounds={'key_len': L, 'shared_prefix_max': share if share is not None else L - 1, 'symbolic_keys': 3}))
+    # reproducer of defect 3 (keys sharing 8 or more leading bytes): expected to fail while the defect exists
+    u = U('kv.cpp', defines=['LEN=11'], max_node_type=1)
+    kid = 'KF3@kv2-len11-anyshare'
+    qs.append(Query('kv2-len11-anyshare', u, 'h_kv2', unwind=16, flags=['--slice-formula'], loop_bounds=[('::(get|insert|remove)_internal', 3)], known=kid if kid in known else None,
+                    about='reproducer of known finding KF3: two 11-byte keys with an unrestricted shared prefix (>= 8 shared bytes corrupt the new I4)', bounds={'key_len': 11}))
+    return qs
+
+
 def c01():
-    qs = tree_queries('db', 'base') + node_queries('base') + big_queries('db', 'base')
+    qs = tree_queries('db', 'base') + node_queries('base') + big_queries('db', 'base') + kv_queries()
     qs += tree_queries('mutex', 'base', quick_set={'get_leaf', 'get_i4_3', 'get_2lvl', 'get_3lvl', 'ins_leaf', 'rem_leaf', 'rem_i4_2'})
     # OLC index, one registered thread: only the lookups fit (insert/remove with a symbolic key: > 24 GB, measured); the write paths of the OLC index run with concrete keys in C03/C04/C14
     qs += [q for q in tree_queries('olc', 'nostats', quick_set={'get_i4_3', 'get_2lvl'}) if q.entry.startswith('get_')]
@@ -200,7 +217,8 @@ def c01():
                              'min-size I16, two- and three-level trees with key prefixes, a two-child root that collapses onto an inode) on which ONE operation runs with a fully '
                              'symbolic 64-bit key, so every way a key can leave the tree (prefix split at any byte, leaf split at any depth, add, grow, duplicate; remove/shrink/collapse) '
                              'is decided for all 2^64 keys by one SAT query per (tree, operation). Histories longer than prelude + one symbolic operation, '
-                             'more than one simultaneously symbolic key on a non-empty tree, byte-string keys, and symbolic-key insert/remove on the OLC index (out of memory) are outside these queries; '
+                             'more than one simultaneously symbolic key on a non-empty tree and symbolic-key insert/remove on the OLC index (out of memory) are outside these queries; byte-string keys: two/three symbolic equal-length keys '
+                             'from empty (lengths 4, 8, 11), keys sharing 8 or more leading bytes are the known finding KF3; '
                              'the mutex index runs the same catalogue (quick: a subset), the OLC index the lookups.')
 
 
